@@ -33,11 +33,14 @@ package verifext
 //@ pure
 //@ ensures result <==> (m.MsgType == specqbft.RoundChangeMsgType && m.DataRound != specqbft.NoRound)
 
+// decoded justification lists never contain nil (every element is a freshly decoded message)
 //@ extern func (m *specqbft.Message) GetRoundChangeJustifications() (result []*specqbft.SignedMessage, err error)
 //@ pure
+//@ ensures forall k int :: 0 <= k && k < len(result) ==> result[k] != nil
 
 //@ extern func (m *specqbft.Message) GetPrepareJustifications() (result []*specqbft.SignedMessage, err error)
 //@ pure
+//@ ensures forall k int :: 0 <= k && k < len(result) ==> result[k] != nil
 
 // sha256 of the data: a function of the byte contents; never fails.
 //@ extern func specqbft.HashDataRoot(data []byte) (result [32]byte, err error)
@@ -77,3 +80,12 @@ package verifext
 //@ pure
 //@ ensures result == nil ==> len(m.Identifier) != 0 && m.MsgType <= specqbft.RoundChangeMsgType
 //@ ensures result == nil ==> snd(m.GetRoundChangeJustifications()) == nil && snd(m.GetPrepareJustifications()) == nil
+
+// Leader of (height, round): committee[(height mod n + round - 1) mod n]. The index computation is only in range
+// for rounds >= 1 that fit a signed 64-bit integer, on a non-empty committee without nil members.
+//@ extern func specqbft.RoundRobinProposer(state *specqbft.State, round specqbft.Round) (result spectypes.OperatorID)
+//@ pure
+//@ requires state != nil && state.Share != nil && len(state.Share.Committee) > 0
+//@ requires forall k int :: 0 <= k && k < len(state.Share.Committee) ==> state.Share.Committee[k] != nil
+//@ requires round >= specqbft.FirstRound && round <= 4611686018427387904
+//@ ensures exists k int :: 0 <= k && k < len(state.Share.Committee) && result == state.Share.Committee[k].OperatorID
